@@ -157,6 +157,11 @@ spifconf_register_builtin(char *name, spifconf_func_ptr_t ptr)
 {
     ASSERT_RVAL(!SPIF_PTR_ISNULL(name), (unsigned char) -1);
 
+    if (builtin_idx == (unsigned char) -1) {
+        /* The table index is 8 bits wide; one more entry would wrap it to 0. */
+        libast_print_error("Unable to register built-in function \"%s\":  Too many functions\n", name);
+        return ((unsigned char) -1);
+    }
     builtins[builtin_idx].name = (spif_charptr_t) STRDUP(name);
     builtins[builtin_idx].ptr = ptr;
     if (++builtin_idx == builtin_cnt) {
